@@ -63,7 +63,11 @@ theorem mergeSingle_names (P : String → Prop) (a b : Atom) (isAnd : Bool) (ha 
     (h : mergeSingle a b isAnd = some m) : GAll (NameIn P) m := by
   have hexpr : ∀ x : Atom, P x.name → GAll (NameIn P) (.expr x) := by
     intro x hx; simp only [GAll, NameIn, singleName?, Option.some.injEq]; intro n hn; rw [← hn]; exact hx
-  unfold mergeSingle at h
+  replace h : mergeSingleCore a b isAnd = some m := by
+    unfold mergeSingle at h; split at h
+    · exact h
+    · simp at h
+  unfold mergeSingleCore at h
   split at h
   · rename_i hpair
     -- python_version / python_full_version
